@@ -180,6 +180,9 @@ def deep_issubclass(subcls, cls):
     try:
         return _subclasscheck_registry[get_origin(cls)](cls, subcls)
     except KeyError:
+        if not isinstance(subcls, type) and isinstance(get_origin(subcls), type):
+            # a parametrized alias such as Tuple[int] against a plain class
+            subcls = get_origin(subcls)
         return issubclass(subcls, cls)
 
 
